@@ -9,7 +9,7 @@ import numpy as np
 import pandas as pd
 
 from .frameobs import NA, UNKNOWN, int_label, observe, plain, rank_map, raised_obs, time_limit, to_rank
-from .frames import dd, from_parts, is_shim_error, split_rows
+from .frames import dd, is_shim_error, split_rows
 
 KINDS = ["int", "float", "str", "datetime"]
 
@@ -44,11 +44,24 @@ def frame_of(idx, kind="int"):
     return pd.DataFrame({"rid": np.arange(len(idx), dtype="i8")}, index=index_of(idx, kind))
 
 
+def parts_collection(parts, divisions=None, key=""):
+    """Like harness.frames.from_parts (a collection with EXACTLY the given per-partition pandas objects), but
+    with deterministic task names derived from `key`: dask seeds the random percentiles of its quantile
+    divisions (set_index, _repartition_quantiles) from the tokens of the expression, and from_parts' random
+    uuid names would make those results differ from run to run."""
+    import hashlib
+    import dask
+    ddm = dd()
+    tok = hashlib.md5(repr(key).encode()).hexdigest()[:16]
+    delayed = [dask.delayed(p, name="verif-src-%s-%d" % (tok, i)) for i, p in enumerate(parts)]
+    return ddm.from_delayed(delayed, meta=parts[0].iloc[:0], divisions=divisions, verify_meta=False)
+
+
 def source_of(idx, layout, sdivs, kind="int"):
     """dask collection with EXACTLY the given partitions and declared divisions ([] = unknown)."""
     pdf = frame_of(idx, kind)
     divs = tuple(label_of(d, kind) for d in sdivs) if sdivs else None
-    return from_parts(split_rows(pdf, layout), divisions=divs)
+    return parts_collection(split_rows(pdf, layout), divs, key=("src", list(idx), list(layout), list(sdivs), kind))
 
 
 # ----------------------------------------------------------------------------- observation
@@ -206,4 +219,4 @@ class Verdicts:
 
 
 __all__ = ["KINDS", "NA", "UNKNOWN", "Verdicts", "dd", "frame_of", "guarded", "index_of", "label_of", "mutate", "observe_as_ranks",
-           "parallel_tlc_cases", "patched_attr", "source_of"]
+           "parallel_tlc_cases", "parts_collection", "patched_attr", "source_of"]
